@@ -279,6 +279,8 @@ class CFG:
 
     def path(self, start, goal, blocked=frozenset()):
         """a shortest path start -> goal avoiding `blocked` (list of Node) or None"""
+        if start in blocked:
+            return None
         prev = {start: None}
         dq = deque([start])
         while dq:
